@@ -67,12 +67,17 @@ class Exec(ExprMixin, CallMixin, BuiltinMixin, StmtMixin, ExecBase):
                 if dflt is None:
                     raise BindError("parameter %s of %s is not described by the contract" % (p, c.qn))
                 env[p] = self.default_value(dflt, mod, c.qn, p, st, Cx(mod, acc=[]))
+        self.cur_fn = self.short(c.qn) + ("#" + c.key.split("#")[1] if "#" in c.key else "")
         for p in c.params:
             if p not in fparams and kind != "module":
                 raise BindError("contract parameter %s is not a parameter of %s" % (p, c.qn))
         for p, so in c.params.items():
             v = fresh(so, p)
             self.assume_wf(st, v, nullable=getattr(so, "nullable", False))
+            env[p] = v
+        for p, so in (c.logical or {}).items():
+            v = fresh(so, p)
+            self.assume_wf(st, v)
             env[p] = v
         st.env = env
         for lab, ex in c.requires:
